@@ -249,7 +249,9 @@ XalanEXSLTFunctionPadding::execute(
     const XalanDOMString&               thePaddingString = theSize == 2 ? args[1]->str(executionContext) : m_space;
     const XalanDOMString::size_type     thePaddingStringLength = thePaddingString.length();
 
-    if (theLength == 0.0 || thePaddingStringLength == 0)
+    // A length that is not a positive number, which includes NaN,
+    // cannot be converted to a size...
+    if (!(theLength >= 1.0) || thePaddingStringLength == 0)
     {
         return executionContext.getXObjectFactory().createStringReference(s_emptyString);
     }
